@@ -249,7 +249,7 @@ pub fn check(case: &Case) -> Verdict {
             };
             // the result depends on the operands only
             let h = crate::hist::mix(&[crate::hist::mix_str(amount), *from as u64, *to as u64]);
-            if h % 4 == 0 {
+            if h % 16 == 0 {
                 if let Some(m) = crate::hist::independent(h, &|| temperature_convert((x, *from), *to).map_or("None".to_string(), crate::hist::show_q)) {
                     fail!("{}: {}", note, m);
                 }
